@@ -167,7 +167,11 @@ impl JwksKeyStore {
     /// [`get_key`]: JwksKeyStore::get_key
     pub async fn await_key(&self, kid: &str) -> Option<DecodingKey> {
         // Step 1: subscribe before checking the cache to close the race window.
+        // The clone inherits the "last seen" generation of the long-lived receiver, which is never
+        // advanced; mark the current generation as seen so that only a fetch cycle completing from
+        // now on wakes us (otherwise every call after the first fetch returns without waiting).
         let mut rx = self.fetch_generation_rx.clone();
+        rx.borrow_and_update();
 
         // Step 2: fast path — key already in cache.
         if let Some(key) = self.get_key(kid) {
